@@ -222,6 +222,21 @@ def run_queries(c, st, db):
             out.append(["ok", sorted(ids)] if len(set(ids)) == len(ids) else ["err", "Duplicate"])
         except Exception as ex:
             out.append(["err", L.err_class(ex)])
+    # iter_by_parent_childs: every unit is the parent followed by its children - the same children the children() query
+    # gives for that parent, whichever ordering is asked for
+    try:
+        types = sorted(set(r["type"] for r in t["rows"]))[:3]
+        for ft in types:
+            for ob in (None, "start", ["seqid", "start"]):
+                for unit in db.iter_by_parent_childs(featuretype=ft, order_by=ob):
+                    kids = sorted(f.id for f in unit[1:])
+                    if unit[0].featuretype != ft or kids != sorted(f.id for f in db.children(unit[0].id)):
+                        raise ValueError("unit of %s: %r" % (unit[0].id, kids))
+    except Exception as ex:
+        if out:
+            out[0] = ["err", "Other"]
+        else:
+            return {"tables": ["err", "Other"], "qs": []}
     return {"tables": ["ok", t], "qs": out}
 
 
